@@ -81,4 +81,25 @@ CHECKS = {
             {"name": "fuzz11", "test": "FuzzRecord11", "fuzz": True, "fuzztime": "150s", "thorough_only": True},
         ],
     },
+    "C03": {
+        "pkg": "c03",
+        "level": "exploration",
+        "level_text": ("Generated sessions of 1-6 NETCONF operations (all 11 operation kinds, generated datastore names incl. non-ASCII, "
+                       "xpath strings with quotes/</&, XML fragments with attributes, prefixes, empty elements and multi-byte text up to ~25 kB) "
+                       "x version x self-closing x header option. Everything the server model received after the client hello is compared "
+                       "byte-for-byte with the responses' FramedInput plus returns, decoded by a strict RFC 6242 / EOM decoder written for the "
+                       "harness, parsed with encoding/xml (strict) and checked structurally; a second session without the options gives the "
+                       "metamorphic baseline (options change only what they name)."),
+        "level_note": ("Trusted: sim.DecodeChunkedPrefix, encoding/xml as the independent XML parser, the canonical form that equates "
+                       "<a></a>, <a> </a> and <a/>. Server answers <ok/> to everything."),
+        "technique": "property-based testing (rapid): strict independent decode of the wire + structural XML oracle + metamorphic on/off relation",
+        "rule": ("wire: rapid draws version x options x 1-6 operations with generated arguments; selfclosing: generated fragments through the public "
+                 "ForceSelfClosingTags. Non-trivial: multi-byte content, or position >= 2 in the session, or a payload with an empty element while "
+                 "self-closing is forced (wire); output differs from input (selfclosing). Distinct = sha1(case)."),
+        "assumptions": ["payloads/filters are well-formed XML fragments", "datastore names are XML NCNames"],
+        "subs": [
+            {"name": "wire", "test": "TestWire", "quick": 2500, "thorough": 30000, "shards": 16},
+            {"name": "selfclosing", "test": "TestSelfClosing", "quick": 20000, "thorough": 200000, "shards": 8},
+        ],
+    },
 }
